@@ -218,14 +218,16 @@ class _GroupNode:
 class _TaskNode:
     """Bookkeeping for a started task in the work graph."""
 
-    __slots__ = "child_streams", "value"
+    __slots__ = "child_streams", "owed", "value"
 
     value: Any
     child_streams: list[Stream]
+    owed: bool  # a group pruned as complete relies on the delivery of the value
 
     def __init__(self) -> None:
         self.value = _UNSET
         self.child_streams = []
+        self.owed = False
 
 
 class WorkQueue:
@@ -535,6 +537,11 @@ class WorkQueue:
         group_nodes = self._group_nodes
         for task in list(group_node.tasks):
             if orphaned_only and any(group in group_nodes for group in task.groups):
+                # a surviving group shares the task and will deliver its value;
+                # remember that the pruned group relies on that delivery
+                shared_task_node = task_nodes.get(task)
+                if shared_task_node:  # pragma: no branch
+                    shared_task_node.owed = True
                 continue
             task_node = task_nodes.get(task)
             if task_node:  # pragma: no branch
@@ -684,15 +691,17 @@ class WorkQueue:
         self._start_new_work(new_groups, new_streams)
         return group_events
 
-    def _task_failure(self, graph_event: _TaskFailure) -> Sequence[GroupFailureEvent]:
+    def _task_failure(
+        self, graph_event: _TaskFailure
+    ) -> Sequence[GroupValuesEvent | GroupFailureEvent]:
         """Handle a task failure, removing all groups it belongs to."""
         task, error = graph_event
         self._task_nodes.pop(task, None)
-        group_failure_events: list[GroupFailureEvent] = []
+        group_failure_events: list[GroupValuesEvent | GroupFailureEvent] = []
         for group in task.groups:
             group_node = self._group_nodes.get(group)
             if group_node:
-                group_failure_events.append(
+                group_failure_events.extend(
                     self._finish_group_failure(group, group_node, error)
                 )
         return group_failure_events
@@ -747,11 +756,37 @@ class WorkQueue:
 
     def _finish_group_failure(
         self, group: Group, group_node: _GroupNode, error: BaseException
-    ) -> GroupFailureEvent:
-        """Finish a failed group, removing its whole subtree."""
+    ) -> Sequence[GroupValuesEvent | GroupFailureEvent]:
+        """Finish a failed group, removing its whole subtree.
+
+        Completed values that a group pruned as complete relied on, and that no
+        surviving group will deliver any more, are still delivered (under the
+        id of the failing group, which is pending until its failure event).
+        """
+        values: list[Any] = []
+        if group in self._root_groups:
+            group_nodes = self._group_nodes
+            task_nodes = self._task_nodes
+            for task in list(group_node.tasks):
+                task_node = task_nodes.get(task)
+                if (
+                    task_node
+                    and task_node.owed
+                    and task_node.value is not _UNSET
+                    and all(
+                        task_group is group or task_group not in group_nodes
+                        for task_group in task.groups
+                    )
+                ):
+                    values.append(task_node.value)
+                    self._discarded_streams.extend(task_node.child_streams)
+                    self._remove_task(task)
         self._remove_group(group, group_node)
         self._root_groups.pop(group, None)
-        return GroupFailureEvent(group, error)
+        failure_event = GroupFailureEvent(group, error)
+        if values:
+            return [GroupValuesEvent(group, values), failure_event]
+        return [failure_event]
 
     def _remove_group(self, group: Group, group_node: _GroupNode) -> None:
         """Remove a group with its tasks and child groups from the graph."""
